@@ -35,7 +35,10 @@ type HarnessSpec struct {
 	Bounds   map[string]string `json:"bounds"`
 	Outside  []string          `json:"outside"`
 	Assumptions []string       `json:"assumptions"`
+	NativeReplay *bool         `json:"native_replay"`
 }
+
+func (h *HarnessSpec) native() bool { return h.NativeReplay == nil || *h.NativeReplay }
 
 type Spec struct {
 	Property  string        `json:"property"`
@@ -70,6 +73,8 @@ func main() {
 	switch os.Args[1] {
 	case "check":
 		os.Exit(cmdCheck(os.Args[2:]))
+	case "replay":
+		os.Exit(cmdReplay(os.Args[2:]))
 	case "selftest":
 		os.Exit(cmdSelftest(os.Args[2:]))
 	default:
@@ -206,6 +211,8 @@ func cmdCheck(argv []string) int {
 	verbose := fs.Bool("v", false, "verbose")
 	noEvidence := fs.Bool("no-evidence", false, "do not write the evidence file")
 	maxWall := fs.Duration("max-wall", 0, "override wall budget per instance")
+	doReplay := fs.Bool("native", true, "replay counterexamples and sampled paths on the native build")
+	nvalidate := fs.Int("validate", 2, "witness paths per instance validated against the native build")
 	fs.Parse(argv)
 	if v := os.Getenv("VERIF_SEED"); v != "" {
 		if n, err := strconv.ParseInt(v, 10, 64); err == nil {
@@ -409,6 +416,12 @@ func cmdCheck(argv []string) int {
 		}
 	}
 	missingReach := []string{}
+	type cex struct {
+		r    *instanceResult
+		v    *interp.Violation
+		path string
+	}
+	var cexs []cex
 	for _, r := range results {
 		if r == nil {
 			exit = 3
@@ -467,13 +480,114 @@ func cmdCheck(argv []string) int {
 		for _, v := range ex.Violations {
 			nviol++
 			path := filepath.Join(replayDir, fmt.Sprintf("%s-%d.json", *prop, nviol))
-			rep := map[string]interface{}{"property": *prop, "harness": r.h.Name, "entry": r.h.Entry, "pkg": r.h.Pkg, "args": r.args,
+			rep := map[string]interface{}{"property": *prop, "harness": r.h.Name, "entry": r.h.Entry, "pkg": r.h.Pkg, "pkg_name": pkgs[r.h.Pkg].Pkg.Name(), "args": r.args,
 				"what": v.What, "site": v.Site, "model": v.Model, "decisions": v.Trace, "stack": v.Stack, "observed": v.Notes}
 			b, _ := json.MarshalIndent(rep, "", " ")
 			os.WriteFile(path, b, 0o644)
-			fmt.Printf("  violation in %s%v: %s\n    site: %s\n    model: %s\n", r.h.Name, r.args, v.What, v.Site, modelString(v.Model))
-			fmt.Printf("VIOLATION property=%s replay=%s\n", *prop, path)
-			exit = 1
+			cexs = append(cexs, cex{r: r, v: v, path: path})
+		}
+	}
+	// ------------------------------------------------------------ native replay of counterexamples
+	var knownIDs []string
+	for id := range known {
+		knownIDs = append(knownIDs, id)
+	}
+	sort.Strings(knownIDs)
+	nb, nberr := newNativeBuilder(*prop, knownIDs)
+	if nberr == nil {
+		defer nb.close()
+	}
+	entriesOf := func(pkg string) []entrySig {
+		var es []entrySig
+		seen := map[string]bool{}
+		for i := range spec.Harnesses {
+			h := &spec.Harnesses[i]
+			if h.Pkg != pkg || seen[h.Entry] || !h.native() {
+				continue
+			}
+			seen[h.Entry] = true
+			if f := pkgs[pkg].Func(h.Entry); f != nil {
+				es = append(es, entrySig{h.Entry, f.Signature.Params().Len()})
+			}
+		}
+		return es
+	}
+	confirmed, unconfirmed, reported := 0, 0, 0
+	for i, c := range cexs {
+		if reported >= 5 {
+			fmt.Printf("  (%d further counterexamples not listed)\n", len(cexs)-i)
+			break
+		}
+		fmt.Printf("  counterexample in %s%v: %s\n    site: %s\n    model: %s\n", c.r.h.Name, c.r.args, c.v.What, c.v.Site, modelString(c.v.Model))
+		status := "not replayed natively (harness depends on engine stubs); holds for the SSA encoding of the real code"
+		if c.r.h.native() && nberr == nil && *doReplay {
+			bin, err := nb.build(c.r.h.Pkg, pkgs[c.r.h.Pkg].Pkg.Name(), entriesOf(c.r.h.Pkg))
+			if err != nil {
+				fmt.Printf("    native replay unavailable: %v\n", err)
+				unconfirmed++
+				continue
+			}
+			res, err := nb.run(bin, c.r.h.Entry, c.r.args, c.path, 3*time.Minute)
+			if err != nil {
+				fmt.Printf("    native replay error: %v\n", err)
+				unconfirmed++
+				continue
+			}
+			if !res.violated() {
+				fmt.Printf("    NOT reproduced natively: encoder or stub error suspected (no VIOLATION reported for it)\n")
+				unconfirmed++
+				continue
+			}
+			if len(res.failed) > 0 {
+				status = "reproduced natively: " + res.failed[0]
+			} else {
+				status = "reproduced natively: panic " + res.panicked
+			}
+		}
+		confirmed++
+		reported++
+		fmt.Printf("    %s\n", status)
+		fmt.Printf("VIOLATION property=%s replay=%s\n", *prop, c.path)
+		exit = 1
+	}
+	if confirmed == 0 && unconfirmed > 0 {
+		fmt.Printf("INCONCLUSIVE property=%s: %d counterexample(s) of the encoding did not reproduce on the native build\n", *prop, unconfirmed)
+		exit = 3
+	}
+	// ------------------------------------------------------------ translation validation on sampled paths
+	validated, mismatched := 0, 0
+	if exit == 0 && nberr == nil && *doReplay {
+		for _, r := range results {
+			if r == nil || !r.h.native() {
+				continue
+			}
+			for wi, wit := range r.ex.Witnesses {
+				if wi >= *nvalidate {
+					break
+				}
+				bin, err := nb.build(r.h.Pkg, pkgs[r.h.Pkg].Pkg.Name(), entriesOf(r.h.Pkg))
+				if err != nil {
+					fmt.Printf("native build failed: %v\n", err)
+					mismatched++
+					break
+				}
+				mf := filepath.Join(nb.tmp, "witness.json")
+				wb, _ := json.Marshal(map[string]interface{}{"model": wit["model"]})
+				os.WriteFile(mf, wb, 0o644)
+				res, err := nb.run(bin, r.h.Entry, r.args, mf, time.Minute)
+				wantF, _ := wit["findings"].([]string)
+				if err != nil || res.violated() || strings.Join(dedupSorted(res.findings), ",") != strings.Join(wantF, ",") {
+					mismatched++
+					fmt.Printf("TRANSLATION-MISMATCH %s%v: native run of a path the engine found clean: failed=%v panic=%q findings=%v (engine: %v) err=%v model=%v\n",
+						r.h.Name, r.args, res.failed, res.panicked, res.findings, wantF, err, wit["model"])
+					continue
+				}
+				validated++
+			}
+		}
+		if mismatched > 0 {
+			fmt.Printf("INCONCLUSIVE property=%s: the native build disagrees with the engine on %d sampled paths\n", *prop, mismatched)
+			exit = 3
 		}
 	}
 	// vacuity: every declared reach label must have been hit in some instance of its harness
@@ -525,7 +639,7 @@ func cmdCheck(argv []string) int {
 
 	if !*noEvidence {
 		writeEvidence(*prop, *tier, *seed, &spec, prog, states, transitions, obligations, discharged, instrs, sat, unsat, unknown, solverTime,
-			funcs, intr, stubs, once, inconcl, findings, funcFiles, reachAll, samples, instSummaries, nviol, wall, exit)
+			funcs, intr, stubs, once, inconcl, findings, funcFiles, reachAll, samples, instSummaries, nviol, wall, exit, validated)
 	}
 	return exit
 }
@@ -554,7 +668,7 @@ func modelString(m map[string]uint64) string {
 
 func writeEvidence(prop, tier string, seed int64, spec *Spec, prog *ssa.Program, states, transitions, obligations, discharged, instrs int64,
 	sat, unsat, unknown int, solverTime time.Duration, funcs, intr, stubs, once, inconcl, findings map[string]int, funcFiles map[string]string, reach map[string]bool,
-	samples []interface{}, insts []map[string]interface{}, nviol int, wall time.Duration, exit int) {
+	samples []interface{}, insts []map[string]interface{}, nviol int, wall time.Duration, exit int, validated int) {
 
 	// functions encoded: the dtail ones with a source hash
 	type fe struct {
@@ -627,7 +741,7 @@ func writeEvidence(prop, tier string, seed int64, spec *Spec, prog *ssa.Program,
 		level = "model_checking"
 	}
 	cov := map[string]interface{}{
-		"states": states, "transitions": transitions, "traces_validated_against_impl": 0,
+		"states": states, "transitions": transitions, "traces_validated_against_impl": validated,
 		"samples": samples, "obligations": obligations, "discharged": discharged,
 		"evaluations": states, "distinct_nontrivial": states,
 		"rule": "one evaluation = one feasible symbolic path of a harness (distinct decision trace); each path covers every value of the symbolic inputs satisfying its path condition",
@@ -653,4 +767,17 @@ func writeEvidence(prop, tier string, seed int64, spec *Spec, prog *ssa.Program,
 
 func cmdSelftest(argv []string) int {
 	return selftest(argv)
+}
+
+func dedupSorted(a []string) []string {
+	m := map[string]bool{}
+	for _, x := range a {
+		m[x] = true
+	}
+	out := make([]string, 0, len(m))
+	for x := range m {
+		out = append(out, x)
+	}
+	sort.Strings(out)
+	return out
 }
